@@ -316,6 +316,15 @@ fn encode_udp_packet(payload: &[u8]) -> Result<Bytes> {
     Ok(buf.freeze())
 }
 
+/// Verification wrapper: run the client-side UDP relay loop on a given socket and stream.
+#[cfg(feature = "verif")]
+pub async fn verif_udp_proxy_loop(
+    local_udp: UdpSocket,
+    stream: Arc<crate::session::Stream>,
+) -> Result<()> {
+    udp_proxy_loop(local_udp, stream).await
+}
+
 #[cfg(test)]
 mod tests {
     use super::*;
